@@ -63,7 +63,8 @@ Qed.
 Definition fee_store : zmap := [(U1, 1000); (1, 1)].          (* U1 holds 1000; senderFee = 1 *)
 
 (** state after converting 100 tokens into vouchers (the sender pays the fee: 101 debited, module holds 100) *)
-Definition fee_mid : state xstate := run xcall0 xcontract0 M0 (start fee_store) [to_voucher 100].
+Definition fee_mid : state xstate :=
+  Eval vm_compute in run xcall0 xcontract0 M0 (start fee_store) [to_voucher 100].
 
 Theorem C11_voucher_backing_sender_fee_refuted :
   (* a well-formed, fully backed state ... *)
@@ -75,16 +76,9 @@ Theorem C11_voucher_backing_sender_fee_refuted :
     sget (s_supply s') VOUCHER = 50 /\ ledger0 (s_ext s') TOK M0 = 49 /\ ~ VBacked M0 ledger0 s'.
 Proof.
   split.
-  { split; [split; [|split; [|split]]|]; cbn.
-    - repeat constructor. intros [].
-    - intros id p [H|[]]. inversion H; subst. cbn. split; [reflexivity|]. split; [repeat constructor; intros []|].
-      intros d [<-|[]]. vm_compute. reflexivity.
-    - intros d p H. change (s_pairs fee_mid) with [(PID, the_pair)] in H. change (s_denom fee_mid) with [(VOUCHER, PID)] in H.
-      cbn [aget] in H. destruct (bytes_eqb VOUCHER d) eqn:E.
-      + apply bytes_eqb_eq in E; subst d. vm_compute in H. inversion H; subst. left; reflexivity.
-      + vm_compute in H. discriminate.
-    - intros p [H|[]]. inversion H.
-    - intros id p id' p' [H|[]] [H'|[]]. inversion H; inversion H'; subst. reflexivity. }
+  { pose proof (start_wf fee_store) as W. unfold WFv, WF in *.
+    change (s_pairs fee_mid) with (s_pairs (start fee_store)).
+    change (s_denom fee_mid) with (s_denom (start fee_store)). exact W. }
   split.
   { intros id p v [H|[]] _ D _. inversion H; subst. cbn in D. inversion D; subst. vm_compute. discriminate. }
   split; [vm_compute; reflexivity|]. split; [vm_compute; reflexivity|].
